@@ -34,6 +34,8 @@ DESC = {
  "C20": ("Results of experiments_to_tuples/dicts and the bytes of save_experiments_csv for synthesized and arbitrary experiment lists are judged cell by cell by Output.tla (MCOutput); keys outside the user-declared factors are reported.", "6/C20"),
  "C21": ("Captured stdout of tabulate_experiments is parsed byte-wise in TLA+ and every row compared with Output!Freq and the percentage for many factor / trial selections.", "6/C21"),
  "C22": ("Recording CustomDistributions log every call; Continuous.tla replays them (call order, inputs from same-trial dependencies and windows with NaN rules, resampling, returned columns, constraints); built-in distributions: one value per trial and constraints; discrete part by MCTrace.", "6/C22"),
+ "C18": ("TLC generates every construction history over block templates that share factor and constraint objects (BuildGen.tla); the last block of each history is built on the shared objects and judged against Design.tla's meaning of the same block built from fresh objects: exhausted sets of both samplers and mismatch verdicts on TLC-labelled candidates.", "6/C18"),
+ "C29": ("SMGen outcomes: refusal or sequences replayed through MCTrace; the timer/search interleavings are model-checked on a PlusCal specification (SMGenTimer.tla) and every schedule TLC produces is realised with a fake Timer fired from a second thread, the answers compared with the never-firing schedule.", "6/C29"),
  "C16": ("Blocks.tla states the documented trial-count arithmetic (R1-R8); TLC evaluates it for every generated design and the result is compared with trials_per_sample(); the length clause of MCTrace covers returned sequences of three strategies; constructor refusals must agree with the specification.", "6/C16"),
 }
 TECH = {
@@ -63,6 +65,8 @@ TECH = {
  "C20": "TLC evaluation of Output.tla on recorded conversion results (MCOutput)",
  "C21": "TLA+ byte-level parse of the printed table vs Output!Freq (MCOutput)",
  "C22": "TLA+ trace validation of recorded distribution calls (Continuous.tla)",
+ "C18": "TLC-generated construction histories (BuildGen.tla) + enumeration/trace validation against the fresh-object meaning",
+ "C29": "TLA+ trace validation of SMGen output + PlusCal model of the timer thread with schedule replay",
  "C16": "TLA+ block arithmetic (Blocks.tla) evaluated by TLC vs recorded trial counts",
 }
 EXTRA = {}
